@@ -83,6 +83,25 @@ const RESERVED_SAMPLES: &[&str] = &[
     "api_generated.ts",
 ];
 
+/// class of a file name for signatures: the name with the reserved stems
+/// abstracted, so that `index.test.ts` and `types.test.ts` are one finding
+pub fn name_class(name: &str) -> String {
+    if name == ".write_test" {
+        return name.to_string();
+    }
+    let mut n = name.to_string();
+    for stem in ["dependency-graph", ".typecache", "typecache", "types", "commands", "events", "index", "schemas", "models", "bindings"] {
+        if let Some(pos) = n.to_lowercase().find(stem) {
+            n.replace_range(pos..pos + stem.len(), "<stem>");
+            return n;
+        }
+    }
+    if n.to_lowercase().contains("generated") {
+        return "<generated-like>".into();
+    }
+    "other".into()
+}
+
 pub fn is_reserved(name: &str) -> bool {
     const BASES: &[&str] = &["types", "commands", "events", "index", "schemas", "models", "bindings"];
     for b in BASES {
@@ -95,6 +114,39 @@ pub fn is_reserved(name: &str) -> bool {
         || name == "dependency-graph.dot"
         || name.starts_with("generated_")
         || name.contains("_generated")
+}
+
+/// Near-misses are derived structurally from the reserved names: every stem x
+/// every kind of small deviation (extra infix, suffix after the extension,
+/// prefix, changed case, other extension, no extension, hidden, "generated"
+/// without the underscore).  Whatever `is_reserved` accepts is classed as
+/// reserved by the caller.
+pub fn gen_near_miss(r: &mut Rng) -> String {
+    const STEMS: &[&str] = &["types", "commands", "events", "index", "schemas", "models", "bindings", "dependency-graph", ".typecache", "generated"];
+    let stem = *r.pick(STEMS);
+    let cap = {
+        let mut c = stem.chars();
+        match c.next() {
+            Some(f) => f.to_uppercase().collect::<String>() + c.as_str(),
+            None => String::new(),
+        }
+    };
+    match r.below(14) {
+        0 => format!("{}.{}.ts", stem, r.pick(&["test", "spec", "mock", "stories", "old", "v2", "local"])),
+        1 => format!("{}.ts.{}", stem, r.pick(&["bak", "orig", "tmp", "swp", "rej", "map"])),
+        2 => format!("{}.ts~", stem),
+        3 => format!("{}{}{}.ts", r.pick(&["my", "old", "api", "app"]), r.pick(&["", "-", "."]), stem),
+        4 => format!("{}{}.ts", stem, r.pick(&["s", "2", "-old", "Helper", ".v2", "-backup"])),
+        5 => format!("{}.ts", cap),
+        6 => format!("{}.TS", stem.to_uppercase()),
+        7 => format!("{}.{}", stem, r.pick(&["tsx", "js", "mjs", "d.tsx", "d.mts", "tmp", "json", "d.ts.map", "bak", "old", "png", "md"])),
+        8 => stem.to_string(),
+        9 => format!(".{}.ts", stem.trim_start_matches('.')),
+        10 => format!("{}.d.{}", stem, r.pick(&["tsx", "ts.bak", "js"])),
+        11 => r.pick(&["generated.ts", "generatedX.ts", "regenerated.ts", "autogenerated.ts", "degenerated-notes.md", "x-generated.ts", "generated-helpers.ts", "Generated_api.ts"]).to_string(),
+        12 => r.pick(&[".write_test", ".write_test.bak", "write_test", ".typecache.old", ".typecache.tmp", ".typecache~", "typecache", ".Typecache", ".typecache.lock"]).to_string(),
+        _ => format!("{}.tmp", stem),
+    }
 }
 
 const PLACEMENTS: &[(&str, &str)] = &[
@@ -173,7 +225,12 @@ impl Check for C16 {
             let mut used = BTreeSet::new();
             for _ in 0..n {
                 let (name, class) = match fr.below(10) {
-                    0..=3 => (fr.pick(NEAR_MISS).to_string(), "near_miss"),
+                    0 => (fr.pick(NEAR_MISS).to_string(), "near_miss"),
+                    1..=3 => {
+                        let n = gen_near_miss(&mut fr);
+                        let cl = if is_reserved(&n) { "reserved" } else { "near_miss" };
+                        (n, cl)
+                    }
                     4 | 5 => (fr.pick(RESERVED_SAMPLES).to_string(), "reserved"),
                     6 => (format!("legacy/{}", fr.pick(RESERVED_SAMPLES)), "nested_reserved"),
                     7 => (format!("sub{}/note.txt", fr.range(1, 3)), "nested"),
@@ -319,7 +376,7 @@ impl Check for C16 {
                 for (p, op) in targets {
                     if let Some((kind, why)) = classify(&p, op) {
                         let name = p.rsplit('/').next().unwrap_or("").to_string();
-                        let nclass = if NEAR_MISS.contains(&name.as_str()) { name.clone() } else { "other".into() };
+                        let nclass = name_class(&name);
                         co.violate(
                             format!("C16/{}/{}/{}", kind, nclass, run.kind),
                             "monitor: every mutating call targets the output directory and, there, only reserved names (or its own transient probe)",
@@ -344,7 +401,7 @@ impl Check for C16 {
                 };
                 if let Some((kind, _)) = classify(&abs, op) {
                     let name = abs.rsplit('/').next().unwrap_or("").to_string();
-                    let nclass = if NEAR_MISS.contains(&name.as_str()) { name.clone() } else { "other".into() };
+                    let nclass = name_class(&name);
                     co.violate(
                         format!("C16/{}/{}/{}", kind, nclass, run.kind),
                         "snapshot: everything but reserved names directly inside the output directory is byte-identical after the run",
